@@ -111,6 +111,11 @@ def case_tournament(c, logpath, src):
     from geneticengine.algorithms.gp.operators.selection import TournamentSelection
 
     rep, problem, inds = mk_pop(len(c["table"]), c["table"], c["problem"], logpath)
+    if c.get("carried"):
+        # the individuals arrive with a fitness for ANOTHER (still alive) problem that ranks them the other way round
+        other = mk_problem(dict(c["problem"], min=not c["problem"]["min"]), c["table"], 1, logpath)
+        list(SequentialEvaluator().evaluate(other, inds) or [])
+        c["_keepalive"] = other
     pop = as_form(c.get("form", "list"), [inds[i] for i in c["pop"]], problem)
     step = TournamentSelection(c["size"], with_replacement=c["repl"])
 
